@@ -49,6 +49,21 @@ class View:
                 return self.D[j]
         return None
 
+    def paused_before(self, i):
+        """the contract's pause flag before operation i, from the implementation's own answers:
+        the latest of (dump, accepted pause, accepted unpause); None when unknown"""
+        for j in range(i - 1, -1, -1):
+            if self.ops[j][0].startswith("restore") or self.kind[j] == "deploy":
+                return None
+            if self.kind[j] == "dump" and self.D[j]:
+                return self.D[j][0].get("paused") == "1"
+            if self.kind[j] == "call" and not self.call[j]["probe"] and self.R[j]["st"] == "ok":
+                if self.call[j]["ep"] == "pause":
+                    return True
+                if self.call[j]["ep"] == "unpause":
+                    return False
+        return None
+
     def next_dump(self, i):
         for j in range(i + 1, len(self.ops)):
             if self.ops[j][0].startswith("restore"):
@@ -1032,8 +1047,7 @@ def m_C19(v):
         if not v.accepted(i):
             continue
         c = v.call[i]
-        pd = v.prev_dump(i)
-        if not pd or pd[0]["paused"] != "1":
+        if v.paused_before(i) is not True:
             continue
         gated = {"confirm", "filter", "select"}
         if v.variant == "guarV2":
